@@ -48,8 +48,8 @@ add(Contract(
     "yarl._parse:make_netloc",
     [("user", OPT(STR)), ("password", OPT(STR)), ("host", OPT(STR)), ("port", OPT(INT)), ("encode", BOOL)],
     spec=spec_parse.make_netloc, requires=spec_parse.make_netloc_requires,
-    props=("C07", "C17", "C11", "C03", "C19", "C09"), opaque=True, shape=STR,
-    note="RFC 3986 3.2 assembly of the authority"))
+    props=("C07", "C17", "C11", "C03", "C19", "C09", "C01", "C04"), opaque=True, shape=STR,
+    note="RFC 3986 3.2 assembly of the authority; with encode the user and the password each go through the userinfo quoter"))
 
 # ---------------------------------------------------------------- yarl/_url.py: ports (C17)
 for _name in ("explicit_port", "port", "is_default_port"):
@@ -242,13 +242,24 @@ if C_QUOTERS:
                   ("data", ("pydata", "val")), ("writer", ("writer",))],
                  spec=None, native_spec=None, spec_module=spec_quote, requires=spec_quote.do_quote_requires,
                  raises=(MemoryError,), loops={0: _CQ_LOOP}, post="(result is not val) or G_same",
+                 abstract=_cmodel.do_quote_contract,
                  props=("C05", "C01", "C02", "C04", "C19"),
                  note="stream simulation of the compiled quoter against spec_quote.q_step_cp"))
+    add(Contract("yarl._quoting_c_pyx:_Quoter._do_quote_or_skip",
+                 [("self", CONST(*C_QUOTERS.values())), ("val", STR)],
+                 spec=None, spec_module=spec_quote, raises=(MemoryError,),
+                 loops={0: {"inv": "0 <= idx and idx <= length and must_quote == 0 and skippable_from(self, val, idx)"}},
+                 native_pre=hooks.skip_pre, native_post=hooks.skip_post,
+                 props=("C05", "C01", "C04", "C19"),
+                 note="fast path (nothing to quote) is sound; writer initialised before and released after _do_quote"))
 
 _ALLQ = CONST(*PY_QUOTERS.values())
 add(Lemma(spec_quote.lemma_canonical_is_fixed, [("quoter", _ALLQ), ("B", BYTES), ("p", INT)],
           requires=spec_quote.requoting, props=("C03", "C04"),
           note="a canonical unit is re-emitted unchanged by every re-quoting quoter"))
+add(Lemma(spec_quote.lemma_skippable_is_fixed, [("quoter", _ALLQ), ("B", BYTES), ("p", INT)],
+          requires=spec_quote.in_range, props=("C01", "C04", "C05"),
+          note="the compiled quoter's fast path: skippable characters are their own units"))
 add(Lemma(spec_quote.lemma_value_preserved, [("quoter", _ALLQ), ("B", BYTES), ("p", INT)],
           requires=spec_quote.lemma_requires, props=("C02",),
           note="units decode to the consumed value; protected delimiters keep their literal/escaped status"))
